@@ -59,6 +59,7 @@ let dtype_of = function
   | _ -> failwith "dtype"
 let dreq_of = function
   | A "f" -> Some RFloat | A "i" -> Some RInt | A "b" -> Some RBool | A "s" -> Some RStr | A "-" -> None
+  | A "sub" | A "sub2" -> Some RSub
   | _ -> failwith "dreq"
 let rec operand_of = function
   | L [A "S"; v] -> OScalar (pyval_of v)
